@@ -1,3 +1,4 @@
+import Ebv.Model.Bytes
 /-! Model of the stack layout rules of the generator (ebpfcat/ebpf.py `LocalVar.__set_name__`,
 `LocalVar.fmt_addr`, `EBPF.get_stack`; ebpfcat/hashmap.py `Dict.__set_name__`): offsets are
 relative to the frame pointer r10 and negative.  `x & -s` for a power of two `s` is modelled as
@@ -43,5 +44,120 @@ instance (a b : Slot) : Decidable (Slot.disjoint a b) := by unfold Slot.disjoint
 def wfDecl : Decl → Bool
   | .loc s => s = 1 || s = 2 || s = 4 || s = 8
   | .dict _ _ => true
+
+/-! ### declared variables and what assignments do to them
+
+The variables the property speaks about: every local variable, every *member* of every Dict's key and
+value structure (addressed by the generated code at `r10 + addr_offset + relative_addr`, where
+`addr_offset` is the key/value offset of *that* Dict, also when two Dicts use one Structure class), and
+the array-map / hash-map variables, which are cells of maps of their own (C08, C09).  A statement
+evaluates an expression over the variables, may write `get_stack` temporaries on the way (the key of
+a hash-map variable, a widened operand) and stores the result into its target. -/
+
+/-- declarations with the member sizes of a Dict's key and value structure (packed, in order) -/
+inductive VDecl where
+  | loc (size : Nat)
+  | dict (keyMembers valMembers : List Nat)
+deriving Repr, DecidableEq
+
+/-- `Member.__set_name__`: members packed from `pos` on; the slot of each, relative to `base` -/
+def memberSlots (base : Int) : Nat → List Nat → List Slot
+  | _, [] => []
+  | pos, s :: ss => ⟨base + pos, s⟩ :: memberSlots base (pos + s) ss
+
+/-- the slots of all stack variables in declaration order (members instead of whole images), and the final `stack` -/
+def varSlots : Int → List VDecl → List Slot × Int
+  | stack, [] => ([], stack)
+  | stack, .loc size :: ds =>
+    let a := alignDown (stack - size) size
+    (⟨a, size⟩ :: (varSlots a ds).1, (varSlots a ds).2)
+  | stack, .dict k v :: ds =>
+    let ka := alignDown (stack - k.sum) 8
+    let va := alignDown (ka - v.sum) 8
+    (memberSlots ka 0 k ++ memberSlots va 0 v ++ (varSlots va ds).1, (varSlots va ds).2)
+
+abbrev Mem := Int → UInt8
+
+def storeBytes (m : Mem) (a : Int) (bs : List UInt8) : Mem :=
+  fun x => if a ≤ x ∧ x < a + bs.length then bs.getD (x - a).toNat 0 else m x
+
+def loadBytes (m : Mem) (sl : Slot) : List UInt8 := (List.range sl.size).map fun (i : Nat) => m (sl.addr + (i : Int))
+
+/-- a declared variable: bytes of the stack frame, or a cell of a map of its own -/
+inductive Var where
+  | stack (sl : Slot)
+  | cell (id : Nat) (size : Nat)
+deriving Repr, DecidableEq
+
+def Var.size : Var → Nat
+  | .stack sl => sl.size
+  | .cell _ n => n
+
+structure State where
+  mem : Mem
+  cells : Nat → Nat
+
+def State.read (s : State) : Var → Nat
+  | .stack sl => Ebv.Bytes.decLE (loadBytes s.mem sl)
+  | .cell id _ => s.cells id
+
+/-- a store of the variable's width: the low bytes of the value -/
+def State.write (s : State) : Var → Nat → State
+  | .stack sl, x => { s with mem := storeBytes s.mem sl.addr (Ebv.Bytes.encLE sl.size x) }
+  | .cell id n, x => { s with cells := fun k => if k = id then x % 256 ^ n else s.cells k }
+
+inductive Rhs where
+  | const (v : Nat)
+  | copy (src add : Nat)        -- `tgt = src + add`
+  | sum (a b : Nat)             -- `tgt = a + b`
+deriving Repr, DecidableEq
+
+structure Stmt where
+  target : Option Nat                    -- `none`: evaluated for its value only (`Dict.update()`, a read-out)
+  rhs : Rhs
+  temps : List (Nat × List UInt8)        -- sizes and contents of the nested `get_stack` temporaries used on the way
+deriving Repr
+
+/-- nested `get_stack` temporaries below `stack`, each written with (the first `n` bytes of) its content -/
+def writeTemps : Int → List (Nat × List UInt8) → Mem → Mem
+  | _, [], m => m
+  | stack, (n, bs) :: ts, m =>
+    writeTemps (getStack stack n) ts (storeBytes m (getStack stack n) ((bs ++ List.replicate n 0).take n))
+
+def evalRhs (rd : Nat → Nat) : Rhs → Nat
+  | .const v => v
+  | .copy s a => rd s + a
+  | .sum a b => rd a + rd b
+
+/-- the value of variable number `i` in a state -/
+def readVar (vars : List Var) (s : State) (i : Nat) : Nat :=
+  match vars[i]? with
+  | some v => s.read v
+  | none => 0
+
+/-- the generated code of one statement: temporaries below `final`, operands read, result stored -/
+def execStmt (vars : List Var) (final : Int) (s : State) (st : Stmt) : State :=
+  let s1 : State := { s with mem := writeTemps final st.temps s.mem }
+  let x := evalRhs (readVar vars s1) st.rhs
+  match st.target.bind (vars[·]?) with
+  | some v => s1.write v x
+  | none => s1
+
+def execAll (vars : List Var) (final : Int) : State → List Stmt → State
+  | s, [] => s
+  | s, st :: sts => execAll vars final (execStmt vars final s st) sts
+
+/-- what the property says a statement does: the target takes the (truncated) value, nothing else changes -/
+def shadowStmt (vars : List Var) (σ : Nat → Nat) (st : Stmt) : Nat → Nat :=
+  match st.target with
+  | none => σ
+  | some t =>
+    match vars[t]? with
+    | some v => fun i => if i = t then evalRhs σ st.rhs % 256 ^ v.size else σ i
+    | none => σ
+
+def shadowAll (vars : List Var) : (Nat → Nat) → List Stmt → (Nat → Nat)
+  | σ, [] => σ
+  | σ, st :: sts => shadowAll vars (shadowStmt vars σ st) sts
 
 end Ebv.Stack
